@@ -21,6 +21,7 @@ import (
 
 	"github.com/zeromicro/go-zero/core/hash"
 	"github.com/zeromicro/go-zero/core/lang"
+	"verifh/hx"
 )
 
 type gnode struct {
@@ -67,6 +68,53 @@ func (n *gnode) String() string {
 		}
 	}
 	return n.repr
+}
+
+// A lookup key that parks Get between "slot located" and "member picked": Get evaluates the key's
+// repr once to locate the slot and — only when the slot is shared by several virtual nodes — a second
+// time through innerRepr to pick one of them; that evaluation (recognised by its call site) parks.
+type gkey struct {
+	text    string
+	parked  int32
+	entered chan struct{}
+	release chan struct{}
+}
+
+func (k *gkey) String() string {
+	if atomic.LoadInt32(&k.parked) == 0 && inInnerReprOfGet() && atomic.CompareAndSwapInt32(&k.parked, 0, 1) {
+		close(k.entered)
+		<-k.release
+	}
+	return k.text
+}
+
+func inInnerReprOfGet() bool {
+	pcs := make([]uintptr, 32)
+	n := runtime.Callers(2, pcs)
+	frames := runtime.CallersFrames(pcs[:n])
+	inner, get := false, false
+	for {
+		f, more := frames.Next()
+		if strings.HasSuffix(f.Function, "hash.innerRepr") {
+			inner = true
+		}
+		if strings.HasSuffix(f.Function, "hash.(*ConsistentHash).Get") {
+			get = true
+		}
+		if !more {
+			return inner && get
+		}
+	}
+}
+
+// the goroutine of a ring call that waits for the ring's lock
+func writerBlocked() bool {
+	for _, st := range hx.Stacks() {
+		if strings.Contains(st, "hash.(*ConsistentHash).") && strings.Contains(st, "sync.(*RWMutex).Lock") && hx.Blocked(st) {
+			return true
+		}
+	}
+	return false
 }
 
 type cthread struct {
@@ -144,31 +192,34 @@ func runConc(c Case) (out Out) {
 		}
 	}()
 
-	observe()
-	for _, ti := range c.Sched {
-		if ti < 0 || ti >= len(threads) {
-			out.Err = "bad thread id"
-			return
-		}
+	// start (or resume) the next action of thread ti.  It returns what kind of step it is and a function
+	// that waits for its outcome.  park=false: an add-type call is not parked between its critical sections.
+	type started struct {
+		what func() (string, bool) // blocks until the step is over: (what happened, ok)
+		done chan struct{}         // closed when the step's goroutine has nothing more to do in this step
+	}
+	startStep := func(ti int, park bool) *started {
 		t := threads[ti]
-		what := "none"
 		switch {
 		case t.parked != nil:
-			close(t.parked.gate)
-			select {
-			case <-t.done:
-			case <-time.After(concWait):
-				out.Err = "a released call did not finish"
-				return
-			}
-			t.parked = nil
-			what = "ins"
+			g := t.parked
+			close(g.gate)
+			d := t.done
+			return &started{done: d, what: func() (string, bool) {
+				select {
+				case <-d:
+				case <-time.After(concWait):
+					return "", false
+				}
+				t.parked = nil
+				return "ins", true
+			}}
 		case t.next < len(t.ops):
 			op := t.ops[t.next]
 			t.next++
 			k := num(op[1])
 			kind := op[0].(string)
-			g := &gnode{repr: c.Nodes[k].V, idx: k, gated: kind != "remove",
+			g := &gnode{repr: c.Nodes[k].V, idx: k, gated: park && kind != "remove",
 				reached: make(chan struct{}), gate: make(chan struct{})}
 			done := make(chan struct{})
 			t.done = done
@@ -185,22 +236,112 @@ func runConc(c Case) (out Out) {
 					h.Remove(g)
 				}
 			}()
-			select {
-			case <-g.reached:
-				t.parked = g
-				what = "rem"
-			case <-done:
-				if kind == "remove" {
-					what = "rem"
-				} else {
-					what = "remins"
+			return &started{done: done, what: func() (string, bool) {
+				select {
+				case <-g.reached:
+					t.parked = g
+					return "rem", true
+				case <-done:
+					if kind == "remove" {
+						return "rem", true
+					}
+					return "remins", true
+				case <-time.After(concWait):
+					return "", false
 				}
-			case <-time.After(concWait):
-				out.Err = "a call neither parked nor returned"
+			}}
+		}
+		d := make(chan struct{})
+		close(d)
+		return &started{done: d, what: func() (string, bool) { return "none", true }}
+	}
+
+	observe()
+	for _, st := range c.Sched {
+		gob := []int{}
+		var what string
+		var ok bool
+		if lst, isl := st.([]any); isl {
+			// ["g", probe, thread]: a lookup of the probe that overlaps the thread's next step
+			p, ti := num(lst[1]), num(lst[2])
+			if p < 0 || p >= len(c.Probes) || ti < 0 || ti >= len(threads) {
+				out.Err = "bad lookup step"
 				return
 			}
+			key := &gkey{text: c.Probes[p].V, entered: make(chan struct{}), release: make(chan struct{})}
+			type gr struct{ r int }
+			gdone := make(chan int, 1)
+			go func() {
+				r := -1
+				defer func() {
+					if e := recover(); e != nil {
+						r = -2
+					}
+					gdone <- r
+				}()
+				v, found := h.Get(key)
+				if !found {
+					r = -1
+				} else if g, isg := v.(*gnode); isg {
+					r = g.idx
+				} else {
+					r = -3 // a value that was never added (nil included)
+				}
+			}()
+			ovl, ran, ans := 0, 0, 0
+			select {
+			case <-key.entered:
+				ovl = 1
+			case ans = <-gdone:
+			case <-time.After(concWait):
+				out.Err = "a lookup neither parked nor returned"
+				return
+			}
+			stp := startStep(ti, false)
+			if ovl == 1 {
+				// the lookup is parked between locating the slot and picking the member: does the
+				// thread's step get through, or does it wait for the ring's lock?
+				deadline := time.Now().Add(concWait)
+				for {
+					select {
+					case <-stp.done:
+						ran = 1
+					default:
+					}
+					if ran == 1 || writerBlocked() {
+						break
+					}
+					if time.Now().After(deadline) {
+						out.Err = "a step overlapping a lookup neither finished nor blocked"
+						close(key.release)
+						return
+					}
+					time.Sleep(50 * time.Microsecond)
+				}
+				close(key.release)
+				select {
+				case ans = <-gdone:
+				case <-time.After(concWait):
+					out.Err = "a released lookup did not return"
+					return
+				}
+			}
+			what, ok = stp.what()
+			gob = []int{p, ans, ovl, ran}
+		} else {
+			ti := num(st)
+			if ti < 0 || ti >= len(threads) {
+				out.Err = "bad thread id"
+				return
+			}
+			what, ok = startStep(ti, true).what()
+		}
+		if !ok {
+			out.Err = "a call neither parked nor returned"
+			return
 		}
 		out.Res = append(out.Res, what)
+		out.Gobs = append(out.Gobs, gob)
 		observe()
 	}
 	return
